@@ -3,6 +3,8 @@ package analysis
 import (
 	"errors"
 
+	"github.com/go-openapi/analysis/internal/flatten/replace"
+
 	"github.com/go-openapi/spec"
 )
 
@@ -143,3 +145,134 @@ func vrfPanicsNone(an *Spec) {
 	an.AllPatterns()
 }
 
+
+var _ = vrfRegister("vrfH_C09deepest", vrfH_C09deepest)
+
+var c09Targets = []string{
+	"#/definitions/a/items",
+	"#/definitions/a/additionalProperties",
+	"#/definitions/a/additionalItems",
+	"#/definitions/a/not",
+	"#/definitions/a/properties/p",
+	"#/paths/~1x/get/responses/200/schema",
+	"#/paths/~1x/get/parameters/0/schema",
+	"#/definitions/a",
+	"#/definitions/missing/properties/x",
+}
+
+// replace.DeepestRef - called by Flatten on every $ref of the document when it names pointers and inline schemas -
+// follows a $ref to whatever it designates. The position designated may be absent (a dangling $ref: class W+), hold a
+// schema without $ref, or hold a $ref itself: it returns a result or an error, it never panics.
+func vrfH_C09deepest() {
+	doc := &spec.Swagger{}
+	var a spec.Schema
+	sub := func(tag string) *spec.Schema {
+		s := &spec.Schema{}
+		s.Description = tag
+		if vrfBool(tag + ".isref") {
+			s.Ref = spec.MustCreateRef("#/definitions/b")
+		}
+		return s
+	}
+	if vrfBool("a.items") {
+		a.Items = &spec.SchemaOrArray{}
+		if vrfBool("a.items.schema") {
+			a.Items.Schema = sub("a.items")
+		}
+	}
+	if vrfBool("a.addp") {
+		a.AdditionalProperties = &spec.SchemaOrBool{Allows: true}
+		if vrfBool("a.addp.schema") {
+			a.AdditionalProperties.Schema = sub("a.addp")
+		}
+	}
+	if vrfBool("a.addi") {
+		a.AdditionalItems = &spec.SchemaOrBool{Allows: true}
+		if vrfBool("a.addi.schema") {
+			a.AdditionalItems.Schema = sub("a.addi")
+		}
+	}
+	if vrfBool("a.not") {
+		a.Not = sub("a.not")
+	}
+	if vrfBool("a.props") {
+		a.Properties = map[string]spec.Schema{}
+		if vrfBool("a.props.p") {
+			a.Properties["p"] = *sub("a.p")
+		}
+	}
+	doc.Definitions = spec.Definitions{"a": a, "b": spec.Schema{}}
+	op := &spec.Operation{}
+	op.Responses = &spec.Responses{}
+	var r spec.Response
+	r.Description = "ok"
+	if vrfBool("resp.schema") {
+		r.Schema = sub("resp")
+	}
+	op.Responses.StatusCodeResponses = map[int]spec.Response{200: r}
+	var p spec.Parameter
+	p.Name, p.In = "body", "body"
+	if vrfBool("param.schema") {
+		p.Schema = sub("param")
+	}
+	op.Parameters = []spec.Parameter{p}
+	var pi spec.PathItem
+	pi.Get = op
+	doc.Paths = &spec.Paths{Paths: map[string]spec.PathItem{"/x": pi}}
+
+	ref := spec.MustCreateRef(c09Targets[vrfParam("target", 0)])
+	var res *replace.DeepestRefResult
+	var err error
+	panicked := vrfPanics(func() { res, err = replace.DeepestRef(doc, &spec.ExpandOptions{}, ref) })
+	vrfAssert("DeepestRef-never-panics", !panicked)
+	// what the harness knows about the designated position
+	var holder *spec.Schema
+	absent := false
+	switch vrfParam("target", 0) {
+	case 0:
+		absent = a.Items == nil
+		if a.Items != nil {
+			holder = a.Items.Schema
+		}
+	case 1:
+		absent = a.AdditionalProperties == nil
+		if a.AdditionalProperties != nil {
+			holder = a.AdditionalProperties.Schema
+		}
+	case 2:
+		absent = a.AdditionalItems == nil
+		if a.AdditionalItems != nil {
+			holder = a.AdditionalItems.Schema
+		}
+	case 3:
+		absent, holder = a.Not == nil, a.Not
+	case 4:
+		if pp, ok := a.Properties["p"]; ok {
+			holder = &pp
+		} else {
+			absent = true
+		}
+	case 5:
+		absent, holder = r.Schema == nil, r.Schema
+	case 6:
+		absent, holder = p.Schema == nil, p.Schema
+	case 8:
+		absent = true
+	}
+	holdsRef := holder != nil && holder.Ref.String() != ""
+	if !panicked {
+		vrfAssert("result-or-error", (res != nil) != (err != nil))
+		if absent {
+			vrfAssert("dangling-ref-reported-as-an-error", err != nil)
+		}
+		if holdsRef {
+			vrfAssert("ref-held-at-the-position-is-followed", err == nil && res != nil && res.Ref.String() == "#/definitions/b")
+		}
+	}
+	if vrfParam("target", 0) != 7 {
+		vrfCover("target-position-absent", !panicked && absent)
+	}
+	if vrfParam("target", 0) < 7 {
+		vrfCover("target-position-holds-a-ref", !panicked && holdsRef)
+	}
+}
